@@ -1,0 +1,11 @@
+//go:build verif
+
+package html
+
+// Read-only accessors for the verification harness (/verif). Compiled only with -tags verif.
+
+func VerifHashText() []byte     { return append([]byte{}, _Hash_text...) }
+func VerifHashTable() []Hash    { return append([]Hash{}, _Hash_table[:]...) }
+func VerifHashHash0() uint32    { return _Hash_hash0 }
+func VerifHashMaxLen() int      { return _Hash_maxLen }
+func VerifCharTable() [256]bool { return charTable }
